@@ -92,7 +92,12 @@ def make_image(rec):
                 kw["tiffinfo"][296] = d["unit"]
         im.save(buf, "TIFF", **kw)
         return buf.getvalue()
-    im.save(buf, PIL_NAME[fmt])
+    kw = {}
+    if rec.get("orient"):  # EXIF Orientation (a camera held on its side): the stored pixel grid is what counts
+        exif = Image.Exif()
+        exif[0x0112] = rec["orient"]
+        kw["exif"] = exif
+    im.save(buf, PIL_NAME[fmt], **kw)
     data = buf.getvalue()
     if fmt == "png" and d["kind"] == "phys":
         chunk = b"pHYs" + struct.pack(">IIB", d["x"], d["y"], d["unit"])
@@ -133,6 +138,8 @@ def gen_recipe(rnd, fmt, tint):
             rec["dpi"] = {"kind": "res", "x": list(x), "y": list(y), "unit": rnd.choice([2, 2, 2, 2, 3, 3, 1, None])}
     else:
         rec["dpi"] = {"kind": "none"}
+    if fmt in ("jpeg", "png") and rnd.random() < 0.25:
+        rec["orient"] = rnd.choice([2, 3, 5, 6, 7, 8])
     return rec
 
 
@@ -637,6 +644,17 @@ def gen_history(i):
             op["prog"] = rnd.choice(["xlsx", "str"])
         return op
 
+    if i % 10 == 7:
+        # directed family: more than ten images of one extension (part names image1 .. image10, image11 ...: two-digit indices),
+        # a save and re-open in between, one more afterwards
+        fmt = rnd.choice(["png", "png", "jpeg", "gif"])
+        recipes = [dict(gen_recipe(rnd, fmt, k), w=1 + k % 4, h=1 + k // 4) for k in range(13)]
+        base = {"slide": 0, "x": 0, "y": 0, "w": None, "h": None}
+        ops = [{"op": "slide"}] + [dict(base, op="pic", img=k, via={"how": "stream"}) for k in range(11)]
+        ops.append({"op": "reopen", "gap": None})
+        ops += [dict(base, op="pic", img=k, via={"how": "stream"}) for k in (11, 12, 3)]
+        ops.append({"op": "save"})
+        return {"recipes": recipes, "ops": ops}
     if i % 10 == 9:
         # directed family: media parts sharing an index under different extensions (image1.png + image1.jpg,
         # image2.png ...) at re-open, then a NEW image of an extension already present is added
